@@ -99,6 +99,10 @@ func VerifC14_Filter() {
 
 const verifTemplate = "acgtcatgcaagtctgacctagcatggacttca"
 
+// low-complexity templates: homopolymer runs and short periods give matches on many diagonals
+// at once, so that many tubes are live and every tube index is exercised
+var verifTemplates = []string{verifTemplate, "aaaacaacaaaaaaacaaaacaacaaaaaaacaa", "gagtttttagagtcaagtcgagtttttaagtc", "acacacacgacacacacacagacacacacaca"}
+
 // VerifC14_Template: longer sequences, so that the tube-recycling tick fires several times and
 // the circular tube list wraps. Target = a fixed template prefix; query = the template from
 // `shift` on; the positions selected by the bit masks tsym / qsym are symbolic letters.
@@ -106,6 +110,7 @@ func VerifC14_Template() {
 	k, n, e, off := verifParam("k"), verifParam("n"), verifParam("e"), verifParam("offset")
 	tl, ql, shift := verifParam("tlen"), verifParam("qlen"), verifParam("shift")
 	tmask, qmask := verifParam("tsym"), verifParam("qsym")
+	cut, shift2 := verifParam("cut"), verifParam("shift2") // from position cut on the query follows the template at shift2: matches on a second diagonal
 	if k < kmerindex.MinKmerLen {
 		kmerindex.MinKmerLen = k
 	}
@@ -124,7 +129,12 @@ func VerifC14_Template() {
 		ls := make([]alphabet.Letter, l)
 		cs := make([]int, l)
 		for i := range ls {
-			x := code(verifTemplate[from+i])
+			at := from + i
+			if name == "q" && i >= cut {
+				at = shift2 + i - cut
+			}
+			tpl := verifTemplates[verifParam("tpl")]
+			x := code(tpl[at%len(tpl)])
 			if mask&(1<<uint(i)) != 0 {
 				x = verifInt(name+string(rune('a'+i)), 0, 3)
 			}
